@@ -126,6 +126,12 @@ RowsOf(h, k) ==
                                    << Row(IF InHeader(h, k - 1) THEN "rawopt" ELSE "raw", k, <<>>) >>
     [] OTHER        -> << >>
 
+\* C02 (--color-only): one output row per input line, in input order.  (A hunk header that no hunk line follows
+\* is not something git hands over; nothing is demanded for it.)
+COLines(h, rows) ==
+  LET want == SelectSeq([k \in 1..Len(h) |-> k], LAMBDA k : h[k].c # "hh" \/ (k < Len(h) /\ ~Boundaryish(h[k + 1]) /\ h[k + 1].c # "hh"))
+  IN [i \in DOMAIN rows |-> rows[i].k] = want
+
 RECURSIVE ExpFrom(_, _)
 ExpFrom(h, k) == IF k > Len(h) THEN << >> ELSE RowsOf(h, k) \o ExpFrom(h, k + 1)
 Expected(h) == ExpFrom(h, 1)
